@@ -37,7 +37,7 @@ RULE = (
     "methods, threshold_at_metric, eer, auc, swap, properties, pointwise_cm, roc, every ConfusionMatrix metric incl. *_ci/as_dict, "
     "one_vs_all, indexing, 12 group_* metrics, group indexing, groupwise) interleaved with noise operations (bootstrap_sample/metric/ci), "
     "reseeds, and 0-4 planned faults. Non-trivial: >= 2 operations or >= 1 fault fired; distinct = distinct abstract trace signatures."
-    "Later rounds added: argument containers and layouts (list/tuple/strided/negative-stride/Series/Fortran/transposed/big-endian), NumPy scalar kinds, "
+     " Later rounds added: argument containers and layouts (list/tuple/strided/negative-stride/Series/Fortran/transposed/big-endian), NumPy scalar kinds, "
     "call styles, copy/pickle steps, user subclasses and configurations, extreme magnitudes and mixed dtypes, sources of 33k-70k scores, one bounded very large pointwise_cm call."
 )
 COMPONENTS = {
